@@ -6,6 +6,8 @@ pub struct Duration { pub nanos: u128 }
 
 impl Duration {
     pub const ZERO: Duration = Duration { nanos: 0 };
+    /// std: u64::MAX seconds and 999_999_999 nanoseconds
+    pub const MAX: Duration = Duration { nanos: 18_446_744_073_709_551_615_999_999_999 };
 
     pub open spec fn from_secs_spec(secs: u64) -> Duration {
         Duration { nanos: (secs as u128 * 1_000_000_000) as u128 }
